@@ -185,8 +185,8 @@ def definition_converters_from_words(words, converter_registry, converter_cache)
             )
         except Exception as e:
             raise RuntimeError(
-                f'Error constructing definition type "%s": {e.__class__.__name__}: {e!s}%s'
-                % (call_expression, words[0].where_str())
+                'Error constructing definition type "%s": %s: %s%s'
+                % (call_expression, e.__class__.__name__, e, words[0].where_str())
             )
     else:
         import_path = flds[0] + "_phil_converters"
